@@ -332,9 +332,11 @@ var pieces = []string{
 	// the literal TEXT of what encoders write for special characters (six characters each, not the characters), and
 	// tokens of the protocols the value travels in
 	`\u003c`, `\u003e`, `\u0026`, `\u2028`, `\\u003c`, `\/`, `\u00e9`, "HTTP/1.0", "HTTP/1.1 200 OK\r\n", "EVENT/1.0 200 OK", "\r\n\r\n", "0\r\n\r\n", "Content-Length: 0",
+	// what a formatting function would take for a verb
+	"%", "50%", "%s", "%d", "%v", "%!", "%%", "%n", "%x",
 }
 
-const hostile = "he said \"hi\" \\ / <b>&amp;</b> '\u2028\u2029' 😀𝄞 \n\t\u0001\u0000\u007f é日本 \\u0041 </script>" + ` \u003c\u003e\u0026 \\u003c HTTP/1.0 EVENT/1.0 `
+const hostile = "he said \"hi\" \\ / <b>&amp;</b> '\u2028\u2029' 😀𝄞 \n\t\u0001\u0000\u007f é日本 \\u0041 </script>" + ` \u003c\u003e\u0026 \\u003c HTTP/1.0 EVENT/1.0 50% %s %d %!`
 
 func genString(rnd *rand.Rand, k int, allowLong bool) string {
 	switch {
